@@ -1,6 +1,6 @@
 """C14 — open_files(), num_fds() and io_counters() reflect the descriptor table exactly.
 
-Model: lean/PsutilModel/Model/C14.lean (+C14Gen), Spec: Spec/C14.lean, theorems: Props/C14.lean.
+Model: lean/PsutilModel/Model/C14.lean + Model/C14Io.lean (+C14Gen), Spec: Spec/C14.lean + Spec/C14Io.lean, theorems: Props/C14.lean.
 
 Correspondence: the real front-end methods `psutil.Process(pid).open_files() / num_fds() /
 io_counters()` run in-process over a fake procfs:
@@ -42,16 +42,16 @@ DRIVER_MODULES = ["PsutilModel.Model.C14Gen", "PsutilModel.Spec.C14", "PsutilMod
 NEEDS_EXT = True
 TRUSTED = [
     "C14 kernel formats (Spec/C14.lean): link texts of /proc/pid/fd (path, path+' (deleted)', socket:[i], pipe:[i], anon_inode:x), fdinfo = 'pos:\\t%lli\\nflags:\\t0%o\\n'+further lines, /proc/pid/io = 'name: %llu' lines; O_ACCMODE = flags mod 4, O_APPEND = 0o2000 (asm-generic ABI)",
-    "C14 model of CPython: int() on (blank-padded) plain digit strings only (no sign, '_' or 0o prefix), bytes.split/strip/replace, dict as newest-first association list; surrogateescape decoding of link texts modelled as identity on bytes",
+    "C14 model of CPython: int(bytes) base 10 for /proc/pid/io values = blanks, optional sign, digits with single '_' between digits (pyIntZ; the 4300-digit limit of CPython is not modelled) — shared by model and specification as the definition of 'a number'; int() of the fdinfo tokens on (blank-padded) plain digit strings only (no sign, '_' or 0o prefix: the kernel prints %lli / 0%o); bytes.split/strip/replace, dict as newest-first association list; surrogateescape decoding of link texts modelled as identity on bytes",
     "C14 world: os.stat of a target answers regular file / something else or nothing / EACCES (EPERM is the same PermissionError class); a process is running, a zombie (state Z in /proc/pid/stat) or gone; EACCES is injected at os.readlink, os.stat, open, os.listdir by the harness (not produced by a real permission check)",
 ]
 ASSUMPTIONS = [
     "well-formed tables: a link text ending in ' (deleted)' is not ambiguous (no file literally carries that name next to an unlinked one), device/other absolute paths are not regular files, relative targets do not start with '/'; os.stat of a non-absolute link text (relative to the monitor's cwd) is never refused; a device path 'x (deleted)' whose 'x' cannot be stat'ed cannot be stat'ed itself",
     "permission: a refusal (EACCES/EPERM) while listing /proc/pid/fd or inspecting any descriptor met while the process is still there is answered with AccessDenied(pid) (psutil's documented contract) — the reading 'an uninspectable descriptor is skipped' is refuted as a theorem (C14_uninspectable_not_skipped) and documented, not counted as a violation",
-    "io theorems: counter names are words without ':' and each appears on one line; junk lines contain no ': '",
+    "io: EVERY content has a promised answer (Spec/C14Io.lean): a counter line is, blanks removed, NAME ': ' NUMBER with exactly one separator and a NUMBER Python's int() reads; every other line is ignored; names are compared byte for byte ('syscr ' is another name); a repeated name: the last line counts; a negative NUMBER is reported as it is (the kernel prints %llu: characterisation, not a violation). The round-1 item-level theorems (names without ':', distinct, junk without ': ') are an instance (C14_io_specs_agree)",
 ]
 MANIFEST = {
-    "level_text": "Machine-checked Lean 4 proofs over a model of _pslinux.Process.open_files/num_fds/io_counters, readlink() and file_flags_to_mode(): the mode string is the documented function of O_ACCMODE x O_APPEND for EVERY flag word (other bits proved irrelevant, total including access mode 3), open_files over the kernel-rendered descriptor table equals the list of still-open regular absolute descriptors for ALL tables (induction; pos decimal, flags octal round trip for all naturals), closing descriptors (before readlink, before the open of fdinfo, or after it at the first/second read; ENOENT/ESRCH; any subset) never fail a live process, a vanished process gives NoSuchProcess, refusals (EACCES at the readlink, at the os.stat of the target through isfile_strict/path_exists_strict, at the open of fdinfo, at listing /proc/pid/fd) give AccessDenied(pid) and never a bare PermissionError or a silently shortened list, only a successfully stat'ed regular absolute target ever yields an entry (relative targets are never stat'ed), a zombie with an empty table gives [] / 0 and ENOENT/ESRCH about a zombie is ZombieProcess, num_fds = table length, io_counters returns the six kernel counters under the documented names for all values and tolerates blank / junk / unknown / non-numeric extra lines. Tied to the code by 35 translator facts (incl. filterExact: the listing filter has no clause about the path besides startswith('/')) (incl. the PermissionError rows of isfile_strict, path_exists_strict, the loop's handlers and wrap_exceptions) consumed by the proof obligations cfg_good_* and by a differential run of the real front-end methods on a fake procfs in seven call modes (plain, oneshot, warm oneshot after a world change, as_dict, process_iter object first/cached, second call) (exhaustive over all 4096 low flag words, both through file_flags_to_mode and end to end; all modes x methods on the corpus).",
+    "level_text": "Machine-checked Lean 4 proofs over a model of _pslinux.Process.open_files/num_fds/io_counters, readlink() and file_flags_to_mode(): the mode string is the documented function of O_ACCMODE x O_APPEND for EVERY flag word (other bits proved irrelevant, total including access mode 3), open_files over the kernel-rendered descriptor table equals the list of still-open regular absolute descriptors for ALL tables (induction; pos decimal, flags octal round trip for all naturals), closing descriptors (before readlink, before the open of fdinfo, or after it at the first/second read; ENOENT/ESRCH; any subset) never fail a live process, a vanished process gives NoSuchProcess, refusals (EACCES at the readlink, at the os.stat of the target through isfile_strict/path_exists_strict, at the open of fdinfo, at listing /proc/pid/fd) give AccessDenied(pid) and never a bare PermissionError or a silently shortened list, only a successfully stat'ed regular absolute target ever yields an entry (relative targets are never stat'ed), a zombie with an empty table gives [] / 0 and ENOENT/ESRCH about a zombie is ZombieProcess, num_fds = table length, io_counters returns the six kernel counters under the documented names for all values and is exact on EVERY file content (C14_io_any_content: any bytes; counter line = NAME ': ' NUMBER with one separator and a NUMBER int() reads, sign and '_' included; every other line ignored; last line of a name counts; RuntimeError without any counter line, ValueError when one of the six is missing), inserting any non-counter line anywhere or any counter of another name never changes the answer; num_fds() and open_files() are consistent on a live inspectable process (every listed descriptor was counted, num_fds - len(open_files) = number of descriptors that are not still-open regular files) and len(open_files) <= num_fds in every world. Tied to the code by 35 translator facts (incl. filterExact: the listing filter has no clause about the path besides startswith('/')) (incl. the PermissionError rows of isfile_strict, path_exists_strict, the loop's handlers and wrap_exceptions) consumed by the proof obligations cfg_good_* and by a differential run of the real front-end methods on a fake procfs in seven call modes (plain, oneshot, warm oneshot after a world change, as_dict, process_iter object first/cached, second call) (exhaustive over all 4096 low flag words, both through file_flags_to_mode and end to end; all modes x methods on the corpus; every /proc/pid/io line of up to 3 (quick) / 4 (thorough) tokens of a 9-token alphabet appended to / put before / replacing the kernel's own line; num_fds/open_files/num_fds on one object and one table).",
     "level_note": "Trusted: Lean kernel + {propext, Classical.choice, Quot.sound}; the translator; the correspondence harness; kernel formats as written in Spec/C14.lean; CPython int/split/strip/replace as modelled; EACCES and the zombie state are injected by the harness, not produced by a real kernel permission check.",
     "technique": "Lean 4 proofs (finite case analysis on flags via bit lemmas, list induction over tables, round trip of decimal/octal renderers) + translator-fed proof obligation + differential correspondence on a fake procfs",
     "design_ref": "DESIGN.md §5 C14",
@@ -1370,7 +1370,7 @@ def correspond(ctx, res):
         kp = kind_prefix_sweep()
         res.extra["kind_x_prefix_tables"] = len(kp)
         tables = [dict(c, mode=m, family=c["family"]) for m in MODES for c in base_corpus] + kp + sweep
-        n = ctx.n(260, 12000)
+        n = ctx.n(260, 9000)
         for i in range(n):
             tables.append(gen_table(ctx.rng, TABLE_FAMILIES[i % len(TABLE_FAMILIES)]))
         # ---- num_fds() against open_files() on one object and one world (live process)
@@ -1378,7 +1378,7 @@ def correspond(ctx, res):
             if not c.get("gone_before") and c.get("dies_at") is None:
                 for m in ("plain", "oneshot"):
                     tables.append(dict(c, mode=m, pair=True, family="pair:" + c["family"]))
-        for i in range(ctx.n(120, 4000)):
+        for i in range(ctx.n(120, 2500)):
             c = gen_table(ctx.rng, PAIR_FAMILIES[i % len(PAIR_FAMILIES)])
             c.update(gone_before=False, dies_at=None, pair=True, mode=ctx.rng.choice(["plain", "oneshot"]),
                      family="pair:" + c["family"])
@@ -1387,11 +1387,11 @@ def correspond(ctx, res):
         for a in range(0, len(tables), CH):
             lines += run_tables(ctx, impl, tables[a:a + CH], res)
         raws = [dict(c, mode=m) for m in MODES for c in corpus_raws()]
-        raws += [gen_raw(ctx.rng) for _ in range(ctx.n(200, 8000))]
+        raws += [gen_raw(ctx.rng) for _ in range(ctx.n(200, 6000))]
         for a in range(0, len(raws), 1000):
             lines += run_raws(ctx, impl, raws[a:a + 1000], res)
         ios = [dict(c, mode=m) for m in MODES for c in corpus_io()]
-        for i in range(ctx.n(330, 12000)):
+        for i in range(ctx.n(330, 9000)):
             ios.append(gen_io(ctx.rng, IO_FAMILIES[i % len(IO_FAMILIES)]))
         for a in range(0, len(ios), 2000):
             lines += run_io_items(ctx, impl, ios[a:a + 2000], res)
@@ -1405,7 +1405,7 @@ def correspond(ctx, res):
         # all of them, appended to the kernel's file (where a counter line for syscr changes the answer)
         shapes += io_shape_sweep(nshape + 1, variants=("after",), alphabet=IO_TOKENS_CORE, minlen=nshape + 1)
         res.extra["io_shape_lines_core_after_only"] = len(IO_TOKENS_CORE) ** (nshape + 1)
-        shapes += [gen_io_shape(ctx.rng, ctx.rng.randrange(nshape + 1, 9)) for _ in range(ctx.n(1200, 15000))]
+        shapes += [gen_io_shape(ctx.rng, ctx.rng.randrange(nshape + 1, 9)) for _ in range(ctx.n(1200, 8000))]
         for a in range(0, len(shapes), 3000):
             lines += run_io_raws(ctx, impl, shapes[a:a + 3000], res)
         res.exhaustive = ("all 4096 combinations of the twelve low flag bits (access mode x O_CREAT/O_EXCL/O_NOCTTY/O_TRUNC/"
